@@ -239,7 +239,7 @@ class Equiv:
                     n = callee_name(x)
                     if n is None:
                         continue
-                    if n.startswith("pyrepseq.") or n.startswith("builtins.") or n in spec_calls or n in self.modelled:
+                    if n.startswith("pyrepseq.") or n.startswith("builtins.") or n in spec_calls or n in self.modelled or n in ("numpy.sum", "numpy.mean"):
                         continue
                     raise AnalysisBroken(f"call to {n} is outside the modelled vocabulary of this rule; cannot decide equality ({show(x, 100)})")
 
